@@ -48,12 +48,6 @@ def constCol (v : KVal) (n : Nat) : Col :=
 def rawNoFaultB (op : ArithOp) (w : IW) (a b : Arr Int) : Bool :=
   (List.zip a b).all fun p => (op.raw w p.1.raw p.2.raw).isOk
 
-def selectOkB {α} (s : Slot Bool) (a b : Slot α) : Bool :=
-  (s.valid || !s.raw) && (!s.valid || s.raw || (a.valid == b.valid))
-
-def selectAllOkB {α} (s : Arr Bool) (a b : Arr α) : Bool :=
-  (List.zip s (List.zip a b)).all fun t => selectOkB t.1 t.2.1 t.2.2
-
 /-- A both-valid row on which the raw computation faults (a genuine overflow / zero divisor),
 as opposed to a fault on a row that is NULL in SQL terms. -/
 def validRowFaultB (op : ArithOp) (w : IW) (a b : Arr Int) : Bool :=
@@ -70,12 +64,6 @@ def arithTags (op : ArithOp) (w : IW) (a b : Arr Int) : List String :=
       then ["rem:zero-divisor-panics"]
       else ["arith:overflow-panics:" ++ nm]
     else ["arith:null-slot-faults:" ++ nm]
-
-def selectTags {α} (s : Arr Bool) (a b : Arr α) : List String :=
-  if selectAllOkB s a b then []
-  else if (List.zip s (List.zip a b)).any (fun t => t.1.valid && !t.1.raw && (t.2.1.valid != t.2.2.valid))
-  then ["select:validity-from-then-branch"]
-  else ["select:null-cond-raw-true"]
 
 /-- LIKE: the pattern is translated to a regex without escaping (`.` is a wildcard), the regex
 `.` does not match a line feed, an unclosed `(` is a panic. -/
@@ -159,7 +147,6 @@ def evalK (chunk : List Col) (n : Nat) : KExpr → KOut Col × List String
         match evalK chunk n e with
         | (.ok ce, te) =>
           let tg := match cc, ct, ce with
-            | .bool s, .int wa x, .int wb y => if wa == wb then selectTags s x y else []
             | .bool _, .bool _, .bool _ => ["select:no-arm-bool"]
             | .bool _, .str _, .str _ => ["select:no-arm-string"]
             | _, _, _ => if cc.ty == .null || ct.ty == .null || ce.ty == .null
